@@ -354,12 +354,304 @@ theorem built_dappend (oc : OCfg) (st : St) (hI : Inv oc.cfg st) (hN : latestN s
           · exact Or.inl (newFrags_refs _ _ _ _ _ p hp)
           · exact Or.inr ⟨m, hm, idx_refs m p hp⟩
 
+def asPut : Call → Option (Path × Obj)
+  | .put p o => some (p, o)
+  | _ => none
+
+def IsPuts (cs : List Call) : Prop := ∀ c ∈ cs, ∃ p o, c = Call.put p o
+
+theorem isPuts_eq : ∀ (cs : List Call), IsPuts cs →
+    cs = putCalls (cs.filterMap asPut) ∧ (cs.filterMap asPut).map (·.1) = cs.flatMap Call.target := by
+  intro cs
+  induction cs with
+  | nil => intro _; exact ⟨rfl, rfl⟩
+  | cons c t ih =>
+    intro h
+    obtain ⟨p, o, rfl⟩ := h c (by simp)
+    obtain ⟨h1, h2⟩ := ih (fun x hx => h x (by simp [hx]))
+    constructor
+    · simp only [List.filterMap_cons, asPut, putCalls, List.map_cons]
+      congr 1
+    · simp only [List.filterMap_cons, asPut, List.map_cons, List.flatMap_cons, Call.target, h2]
+      rfl
+
+/-- one transaction whose write phase is any list of `put` calls -/
+theorem guardsOk_txn' {cfg : Cfg} {uid0 bound : Nat} {s : Store} (hJ : J cfg uid0 bound [] s) (wr : List Call)
+    (hp : IsPuts wr) (base v tx u : Nat) (m : Manifest)
+    (hl : ∀ p ∈ wr.flatMap Call.target, InRange uid0 bound p) (hnd : (wr.flatMap Call.target).Nodup)
+    (ht : targetOk s v = true) (hb : base < 2 ^ 64) (htx : uid0 ≤ tx ∧ tx < uid0 + bound)
+    (htxl : Path.file .txn tx 0 ∉ wr.flatMap Call.target)
+    (hrefs : ∀ p ∈ m.frags.flatMap Frag.refs ++ m.indices.flatMap Index.refs,
+      p ∈ wr.flatMap Call.target ∨ ∃ mb, manifestAt s base = some mb ∧ p ∈ mb.refs) :
+    GuardsOk cfg uid0 bound [] s (wr ++ commitTxn cfg base v tx u m) := by
+  obtain ⟨h1, h2⟩ := isPuts_eq wr hp
+  rw [h1]
+  rw [← h2] at hl hnd htxl hrefs
+  exact guardsOk_txn hJ _ base v tx u m (fun e he => hl _ (List.mem_map_of_mem he)) hnd ht hb htx htxl hrefs
+
+theorem df_cases (objs : List (Path × Option Obj)) (fields : List Nat) (hit : Row → Bool) (did : Nat) (fr : Frag) :
+    deleteFrom objs fields hit did fr = (some fr, []) ∨ deleteFrom objs fields hit did fr = (none, []) ∨
+      ∃ o, deleteFrom objs fields hit did fr = (some { fr with del := some did }, [Call.put (.file .del did 0) o]) := by
+  unfold deleteFrom
+  dsimp only
+  split
+  · exact Or.inl rfl
+  · split
+    · exact Or.inr (Or.inl rfl)
+    · exact Or.inr (Or.inr ⟨_, rfl⟩)
+
+/-- the results of `deleteFrom` over indexed fragments -/
+def delRes (objs : List (Path × Option Obj)) (fields : List Nat) (hit : Row → Bool) (u : Nat) (l : List (Frag × Nat)) :
+    List (Option Frag × List Call) := l.map (fun e => deleteFrom objs fields hit (u + e.2) e.1)
+
+theorem delRes_spec (objs : List (Path × Option Obj)) (fields : List Nat) (hit : Row → Bool) (u : Nat) :
+    ∀ (l : List (Frag × Nat)),
+      IsPuts ((delRes objs fields hit u l).flatMap (·.2)) ∧
+      (((delRes objs fields hit u l).flatMap (·.2)).flatMap Call.target).Sublist
+        (l.map (fun e => Path.file .del (u + e.2) 0)) ∧
+      ∀ p ∈ ((delRes objs fields hit u l).filterMap (·.1)).flatMap Frag.refs,
+        p ∈ (l.map (·.1)).flatMap Frag.refs ∨ p ∈ ((delRes objs fields hit u l).flatMap (·.2)).flatMap Call.target := by
+  intro l
+  induction l with
+  | nil => exact ⟨(fun c hc => by cases hc), List.Sublist.slnil, (fun p hp => by cases hp)⟩
+  | cons e t ih =>
+    obtain ⟨i1, i2, i3⟩ := ih
+    simp only [delRes, List.map_cons, List.flatMap_cons, List.filterMap_cons] at i1 i2 i3 ⊢
+    rcases df_cases objs fields hit (u + e.2) e.1 with h | h | ⟨o, h⟩
+    · rw [h]
+      refine ⟨by simpa using i1, by simpa using i2.cons _, fun p hp => ?_⟩
+      simp only [List.flatMap_cons, List.mem_append, List.nil_append] at hp ⊢
+      rcases hp with hp | hp
+      · exact Or.inl (Or.inl hp)
+      · rcases i3 p hp with a | a
+        · exact Or.inl (Or.inr a)
+        · exact Or.inr a
+    · rw [h]
+      refine ⟨by simpa using i1, by simpa using i2.cons _, fun p hp => ?_⟩
+      simp only [List.flatMap_cons, List.mem_append, List.nil_append] at hp ⊢
+      rcases i3 p hp with a | a
+      · exact Or.inl (Or.inr a)
+      · exact Or.inr a
+    · rw [h]
+      refine ⟨?_, ?_, fun p hp => ?_⟩
+      · intro c hc
+        simp only [List.cons_append, List.nil_append, List.mem_cons] at hc
+        rcases hc with rfl | hc
+        · exact ⟨_, _, rfl⟩
+        · exact i1 c hc
+      · simpa [Call.target] using i2.cons₂ (Path.file Cls.del (u + e.2) 0)
+      · simp only [List.flatMap_cons, List.mem_append, List.cons_append, List.nil_append, Call.target,
+          List.mem_cons] at hp ⊢
+        rcases hp with hp | hp
+        · simp only [Frag.refs, List.mem_append, List.mem_singleton] at hp
+          rcases hp with hp | hp
+          · exact Or.inl (Or.inl (by simp [Frag.refs, hp]))
+          · exact Or.inr (Or.inl hp)
+        · rcases i3 p hp with a | a
+          · exact Or.inl (Or.inr a)
+          · exact Or.inr (Or.inr a)
+
+theorem zipIdx_map_fst {α : Type} : ∀ (l : List α) (n : Nat), (l.zipIdx n).map (·.1) = l := by
+  intro l
+  induction l with
+  | nil => intro n; rfl
+  | cons a t ih => intro n; simp [List.zipIdx_cons, ih]
+
+theorem deleteAll_eq (objs : List (Path × Option Obj)) (fields : List Nat) (hit : Row → Bool) (u : Nat) (frags : List Frag) :
+    deleteAll objs fields hit u frags =
+      ((delRes objs fields hit u frags.zipIdx).filterMap (·.1), (delRes objs fields hit u frags.zipIdx).flatMap (·.2)) := rfl
+
+/-- `deleteAll`: only `put`s of distinct deletion files numbered by fragment position; every surviving fragment names
+    files of the old fragments or one of those deletion files -/
+theorem deleteAll_spec (objs : List (Path × Option Obj)) (fields : List Nat) (hit : Row → Bool) (u : Nat) (frags : List Frag) :
+    IsPuts (deleteAll objs fields hit u frags).2 ∧
+    ((deleteAll objs fields hit u frags).2.flatMap Call.target).Nodup ∧
+    (∀ p ∈ (deleteAll objs fields hit u frags).2.flatMap Call.target, ∃ i, i < frags.length ∧ p = Path.file .del (u + i) 0) ∧
+    ∀ p ∈ (deleteAll objs fields hit u frags).1.flatMap Frag.refs,
+      p ∈ frags.flatMap Frag.refs ∨ p ∈ (deleteAll objs fields hit u frags).2.flatMap Call.target := by
+  rw [deleteAll_eq]
+  obtain ⟨a, b, c⟩ := delRes_spec objs fields hit u frags.zipIdx
+  refine ⟨a, b.nodup (nodup_idx frags .del u), fun p hp => mem_idx frags .del u p (b.subset hp), fun p hp => ?_⟩
+  have := c p hp
+  rw [zipIdx_map_fst] at this
+  exact this
+
+theorem arith1 (u i w x A : Nat) (hi : i ≤ w) : u + i < u + (A + (w + x) + 8) := by omega
+
+theorem built_delete (oc : OCfg) (st : St) (hI : Inv oc.cfg st) (hN : latestN st.store + 2 < 2 ^ 63) (x : Int)
+    (plan : Plan) (h : build oc st (.delete x) = .ok plan) :
+    GuardsOk oc.cfg st.uid plan.ids [] st.store plan.calls := by
+  simp only [build, buildCalls] at h
+  cases hm : manifestAt st.store (latestN st.store) with
+  | none => simp [hm] at h
+  | some m =>
+    simp only [hm] at h
+    cases h
+    dsimp only
+    obtain ⟨a, b, c, d⟩ := deleteAll_spec (derefs st.store m) m.fields (geMatch x) st.uid m.frags
+    refine guardsOk_txn' (J_of_inv hI _) _ a _ _ _ _ _ ?_ b (targetOk_next _ ?_) ?_ ⟨?_, ?_⟩ ?_ ?_
+    · intro p hp
+      obtain ⟨i, hi, rfl⟩ := c p hp
+      exact ⟨_, _, _, rfl, by omega, arith1 _ _ _ _ _ (by omega)⟩
+    · omega
+    · omega
+    · omega
+    · exact arith1 _ _ _ _ _ (Nat.le_refl _)
+    · intro hin
+      obtain ⟨i, _, e⟩ := c _ hin
+      cases e
+    · intro p hp
+      simp only [List.mem_append] at hp
+      rcases hp with hp | hp
+      · rcases d p hp with h1 | h1
+        · exact Or.inr ⟨m, hm, frags_refs m p h1⟩
+        · exact Or.inl h1
+      · exact Or.inr ⟨m, hm, idx_refs m p hp⟩
+
+/-- what the new-fragment part of update / merge_insert provides -/
+structure NfOk (u : Nat) (nf : List (Frag × Call)) : Prop where
+  puts : IsPuts (nf.map (·.2))
+  nodup : ((nf.map (·.2)).flatMap Call.target).Nodup
+  mem : ∀ p ∈ (nf.map (·.2)).flatMap Call.target, ∃ i, i < nf.length ∧ p = Path.file .data (u + i) 0
+  refs : ∀ p ∈ (nf.map (·.1)).flatMap Frag.refs, p ∈ (nf.map (·.2)).flatMap Call.target
+
+theorem nfOk_nil (u : Nat) : NfOk u [] := ⟨(fun c hc => by cases hc), List.nodup_nil, (fun p hp => by cases hp), (fun p hp => by cases hp)⟩
+
+theorem putCalls_targets (l : List (Path × Obj)) : (putCalls l).flatMap Call.target = l.map (·.1) := by
+  induction l with
+  | nil => rfl
+  | cons e t ih => simp only [putCalls, List.map_cons, List.flatMap_cons, Call.target] at ih ⊢; rw [ih]; rfl
+
+theorem nfOk_new (fields : List Nat) (f u fid : Nat) (rows : List Row) : NfOk u (newFrags fields f u fid rows) := by
+  have hl := newFrags_length fields f u fid rows
+  refine ⟨?_, ?_, ?_, ?_⟩
+  · rw [newFrags_calls]; intro c hc
+    simp only [putCalls, List.mem_map] at hc
+    obtain ⟨e, _, rfl⟩ := hc; exact ⟨_, _, rfl⟩
+  · rw [newFrags_calls, putCalls_targets, nfPuts_paths]; exact nodup_idx _ _ _
+  · intro p hp
+    rw [newFrags_calls, putCalls_targets, nfPuts_paths] at hp
+    obtain ⟨i, hi, e⟩ := mem_idx _ _ _ _ hp
+    exact ⟨i, by omega, e⟩
+  · intro p hp
+    rw [newFrags_calls, putCalls_targets]
+    exact newFrags_refs _ _ _ _ _ p hp
+
+theorem arith2 (u i a b c w x : Nat) (hi : i < a) : u + i < u + (a + b + c + (w + x) + 8) := by omega
+theorem arith3 (u i a b c w x : Nat) (hi : i ≤ w) : u + 1 + i < u + (a + b + c + (w + x) + 8) := by omega
+
+/-- new fragment(s), deletion files, one commit: the shape of update / merge_insert -/
+theorem upd_core {cfg : Cfg} {st : St} (hI : Inv cfg st) (hN : latestN st.store + 2 < 2 ^ 63) (m : Manifest)
+    (hm : manifestAt st.store (latestN st.store) = some m) (nf : List (Frag × Call)) (hnf : NfOk st.uid nf)
+    (objs : List (Path × Option Obj)) (hit : Row → Bool) (nextFrag : Nat) :
+    GuardsOk cfg st.uid
+      ((nf.map (·.2) ++ (deleteAll objs m.fields hit (st.uid + 1) m.frags).2 ++
+          commitTxn cfg (latestN st.store) (latestN st.store + 1) (st.uid + m.frags.length + 1)
+            (st.uid + m.frags.length + 2)
+            { m with frags := (deleteAll objs m.fields hit (st.uid + 1) m.frags).1 ++ nf.map (·.1),
+                     nextFrag := nextFrag }).length + (m.frags.length + m.indices.length) + 8) [] st.store
+      (nf.map (·.2) ++ (deleteAll objs m.fields hit (st.uid + 1) m.frags).2 ++
+          commitTxn cfg (latestN st.store) (latestN st.store + 1) (st.uid + m.frags.length + 1)
+            (st.uid + m.frags.length + 2)
+            { m with frags := (deleteAll objs m.fields hit (st.uid + 1) m.frags).1 ++ nf.map (·.1),
+                     nextFrag := nextFrag }) := by
+  obtain ⟨a, b, c, d⟩ := deleteAll_spec objs m.fields hit (st.uid + 1) m.frags
+  have hputs : IsPuts (nf.map (·.2) ++ (deleteAll objs m.fields hit (st.uid + 1) m.frags).2) := by
+    intro x hx
+    simp only [List.mem_append] at hx
+    rcases hx with hx | hx
+    · exact hnf.puts x hx
+    · exact a x hx
+  refine guardsOk_txn' (J_of_inv hI _) _ hputs _ _ _ _ _ ?_ ?_ (targetOk_next _ (by omega)) (by omega) ⟨by omega, ?_⟩ ?_ ?_
+  · intro p hp
+    simp only [List.flatMap_append, List.mem_append] at hp
+    rcases hp with hp | hp
+    · obtain ⟨i, hi, rfl⟩ := hnf.mem p hp
+      refine ⟨_, _, _, rfl, by omega, ?_⟩
+      simp only [List.length_append, List.length_map]
+      exact arith2 _ _ _ _ _ _ _ hi
+    · obtain ⟨i, hi, rfl⟩ := c p hp
+      refine ⟨_, _, _, rfl, by omega, ?_⟩
+      simp only [List.length_append, List.length_map]
+      exact arith3 _ _ _ _ _ _ _ (by omega)
+  · simp only [List.flatMap_append]
+    rw [List.nodup_append]
+    refine ⟨hnf.nodup, b, fun x hx y hy e => ?_⟩
+    obtain ⟨i, _, rfl⟩ := hnf.mem x hx
+    obtain ⟨j, _, rfl⟩ := c y hy
+    cases e
+  · simp only [List.length_append, List.length_map]
+    have := arith3 st.uid m.frags.length nf.length (deleteAll objs m.fields hit (st.uid + 1) m.frags).2.length
+      (commitTxn cfg (latestN st.store) (latestN st.store + 1) (st.uid + m.frags.length + 1)
+            (st.uid + m.frags.length + 2)
+            { m with frags := (deleteAll objs m.fields hit (st.uid + 1) m.frags).1 ++ nf.map (·.1),
+                     nextFrag := nextFrag }).length m.frags.length m.indices.length (Nat.le_refl _)
+    omega
+  · intro hin
+    simp only [List.flatMap_append, List.mem_append] at hin
+    rcases hin with hin | hin
+    · obtain ⟨i, _, e⟩ := hnf.mem _ hin; cases e
+    · obtain ⟨i, _, e⟩ := c _ hin; cases e
+  · intro p hp
+    simp only [List.flatMap_append, List.mem_append] at hp ⊢
+    rcases hp with (hp | hp) | hp
+    · rcases d p hp with h1 | h1
+      · exact Or.inr ⟨m, hm, frags_refs m p h1⟩
+      · exact Or.inl (Or.inr h1)
+    · exact Or.inl (Or.inl (hnf.refs p hp))
+    · exact Or.inr ⟨m, hm, idx_refs m p hp⟩
+
+theorem nfOk_ite (c : Prop) [Decidable c] (fields : List Nat) (f u fid : Nat) (rows : List Row) :
+    NfOk u (if c then [] else newFrags fields f u fid rows) := by
+  split
+  · exact nfOk_nil u
+  · exact nfOk_new fields f u fid rows
+
+theorem built_update (oc : OCfg) (st : St) (hI : Inv oc.cfg st) (hN : latestN st.store + 2 < 2 ^ 63) (x y : Int)
+    (plan : Plan) (h : build oc st (.update x y) = .ok plan) :
+    GuardsOk oc.cfg st.uid plan.ids [] st.store plan.calls := by
+  simp only [build, buildCalls] at h
+  cases hm : manifestAt st.store (latestN st.store) with
+  | none => simp [hm] at h
+  | some m =>
+    simp only [hm] at h
+    split at h
+    · cases h
+    · rename_i p hp
+      split at hp
+      · cases hp
+      · cases hp
+        cases h
+        exact upd_core hI hN m hm _ (nfOk_ite _ _ _ _ _ _) _ _ _
+
+theorem built_upsert (oc : OCfg) (st : St) (hI : Inv oc.cfg st) (hN : latestN st.store + 2 < 2 ^ 63) (rows : List Row)
+    (plan : Plan) (h : build oc st (.upsert rows) = .ok plan) :
+    GuardsOk oc.cfg st.uid plan.ids [] st.store plan.calls := by
+  simp only [build, buildCalls] at h
+  cases hm : manifestAt st.store (latestN st.store) with
+  | none => simp [hm] at h
+  | some m =>
+    simp only [hm] at h
+    split at h
+    · cases h
+    · rename_i p hp
+      split at hp
+      · cases hp
+      · split at hp
+        · cases hp
+        · cases hp
+          cases h
+          exact upd_core hI hN m hm _ (nfOk_ite _ _ _ _ _ _) _ _ _
+
 /-- the operations for which `build_valid` is proved -/
 def Covered : Op → Bool
   | .create .. => true
   | .append .. => true
   | .overwrite .. => true
   | .dappend .. => true
+  | .delete _ => true
+  | .update .. => true
+  | .upsert _ => true
   | .index => true
   | .dropcol => true
   | .config _ => true
@@ -383,9 +675,9 @@ theorem build_valid (oc : OCfg) (st : St) (hI : Inv oc.cfg st) (hN : latestN st.
   | dropcol => exact built_dropcol oc st hI hN plan h
   | config c => exact built_config oc st hI hN c plan h
   | restore v => exact built_restore oc st hI hN v plan h
-  | delete _ => cases hc
-  | update _ _ => cases hc
-  | upsert _ => cases hc
+  | delete x => exact built_delete oc st hI hN x plan h
+  | update x y => exact built_update oc st hI hN x y plan h
+  | upsert rows => exact built_upsert oc st hI hN rows plan h
   | compact => cases hc
   | addcol => cases hc
 
